@@ -65,8 +65,8 @@ inductive EEvent
 deriving Repr, DecidableEq
 
 /-- does this step of a pool report an error (`ah.onErrAwaited`)?  Only the two cases of the await loop do: a run
-result that is neither out-of-ammo nor a context error of the run context (a failed creation, a panicked gun), and a
-start result with a creation error. -/
+result that is neither out-of-ammo nor a context error of the run context (a failed creation, a panicked gun), a
+start result with a creation error, and a provider / aggregator result that is a real error. -/
 def reportsErr (p : PSt) : PEvent → Bool
   | .recvRun i =>
       match p.pending[i]? with
@@ -77,6 +77,7 @@ def reportsErr (p : PSt) : PEvent → Bool
   | .recvStart =>
       !(p.base.phase != .done || p.aw.startFinished) &&
         (onStartResult (fun _ => p.base.ret != .create)).contains .reportErr
+  | .recvOther isCtxErr => (onOtherResult (fun _ => isCtxErr)).contains .reportErr
   | _ => false
 
 def setPool (f : Nat → EPool) (j : Nat) (q : EPool) : Nat → EPool := fun k => if k = j then q else f k
